@@ -130,10 +130,6 @@ Proof.
 Qed.
 Lemma in_frame_uri_self u G : our_self u <> None -> in_frame (our_self u) (fp_uri u ++ G).
 Proof. intros H. split; [exact H|]. intros j. unfold fp_uri. rewrite cnt_app, cnt_olist_cons. lia. Qed.
-Lemma in_frame_weaken o F G : in_frame o F -> in_frame o (G ++ F).
-Proof. intros [A B]. split; auto. intros j. rewrite cnt_app. specialize (B j). lia. Qed.
-Lemma in_frame_perm o F F' : (forall j, cnt j F = cnt j F') -> in_frame o F -> in_frame o F'.
-Proof. intros E [A B]. split; auto. intros j. rewrite <- E. auto. Qed.
 
 (* the source uri: a frame object whose strings are frame objects too *)
 Definition uri_in_frame (u : ow_uri) (F : list nat) : Prop :=
